@@ -36,6 +36,7 @@ def Conv.wf : Conv → Bool
   | .pane info cs =>
     wfList cs && cs.length == info.fields.length && nodupNames (info.fields.map (·.name))
   | .nested v => v.wf
+  | .vol v => v.wf
 def wfList : List Conv → Bool
   | [] => true
   | c :: cs => c.wf && wfList cs
